@@ -184,10 +184,6 @@ where
                 }
                 frozen_steps += 1;
             } else {
-                // adaptation (re)started: a previously frozen value may legitimately change
-                if t.m <= *n_discard {
-                    frozen_bits = None;
-                }
                 adapt_steps += 1;
             }
             let stat = stat_of(t);
@@ -196,6 +192,11 @@ where
                 return;
             }
             da.update(t.m, delta.f(), stat, t.m <= *n_discard);
+            if t.m <= *n_discard {
+                // this transition's update adapted (possibly resumed in a later run): whatever was
+                // frozen before may legitimately change now
+                frozen_bits = None;
+            }
             rep.held();
         }
         // state after the run
@@ -358,9 +359,15 @@ where
             adapt_case::<T, B, _>(ctx, rep, case, g, t, 1.0, bname)
         }
         3 => {
+            // also very small and very large scales: the step-size search has to halve / double far
             let d = g.range(1, 8);
-            let t = DiagGauss::new((0..d).map(|_| g.log_uniform(0.1, 10.0)).collect(), vec![0.0; d]);
-            adapt_case::<T, B, _>(ctx, rep, case, g, t, 1.0, bname)
+            let sc = match g.below(4) {
+                0 => g.log_uniform(1e-6, 1e-3),
+                1 => g.log_uniform(1e2, 1e4),
+                _ => 1.0,
+            };
+            let t = DiagGauss::new((0..d).map(|_| g.log_uniform(0.1, 10.0) / (sc * sc)).collect(), vec![0.0; d]);
+            adapt_case::<T, B, _>(ctx, rep, case, g, t, sc, bname)
         }
         4 => {
             let (a, b) = (T::of(1.0), T::of(g.log_uniform(1.0, 20.0)));
